@@ -63,6 +63,13 @@ def fit_level(ck, lf):
         for k in zs:
             key = rng.choice([kk for kk in ('wxy', 'wuv') if pr[kk] is not None])
             pr[key][k] = -1.0 if neg else 0.0
+        if t % 5 == 0 and not neg:
+            # integer-typed weight arrays (counts / flags, 0 = unused): same numbers, other dtype
+            for key in ('wxy', 'wuv'):
+                if pr[key] is not None:
+                    pr[key] = [float(int(round(4 * w))) for w in pr[key]]
+            pr['dtypes'] = (None, ['int64', 'uint8', 'int32'][(t // 5) % 3])
+        ck.count('weight_dtype', pr.get('dtypes', (None, 'float64'))[1])
         pr['stream'], pr['style'] = 'zero_weight', pr['style']
         cor, drop, Z = variants(rng, pr)
         ck.count('geom', geom)
